@@ -31,7 +31,7 @@ ASSUMPTIONS = ['restricted reach: only tensors the optimizers quantize during '
                'are not decided']
 EXPECTED_PROBES = ['quantized_bucket_zero', 'int8_leaf', 'int16_leaf',
                    'half_bucket_checked', 'carried_leaf_checked',
-                   'scaled_requantize']
+                   'scaled_requantize', 'sign_flipped_requantize']
 
 
 def generate(seed, idx, tier):
@@ -186,8 +186,12 @@ def scaled_requantize(ctx, mk, t, base, deq, nb, diag):
   ctx._scaled_done += 1
   dt = jnp.int8 if nb == 127 else jnp.int16
   top = np.floor(np.log2(3.0e38 / amax))
-  for k in (top, top - 1, top - 13, 0.0, -60.0, np.ceil(np.log2(1e-37 / amax))):
-    x = np.asarray(deq, np.float64) * (2.0 ** float(k))
+  # (log2 scale, sign): the sign cases feed the same reached tensor negated
+  # (a statistics matrix becomes negative definite, its float diagonal negative)
+  cases = [(top, 1), (top - 1, 1), (top - 13, 1), (0.0, 1), (-60.0, 1),
+           (np.ceil(np.log2(1e-37 / amax)), 1), (0.0, -1), (top - 1, -1)]
+  for k, sgn in cases:
+    x = np.asarray(deq, np.float64) * (2.0 ** float(k)) * sgn
     x32 = np.asarray(x, np.float32)
     if not np.all(np.isfinite(x32)):
       continue
@@ -209,8 +213,23 @@ def scaled_requantize(ctx, mk, t, base, deq, nb, diag):
         ctx.violate('q_range', mk, 'most_negative_or_out_of_range_integer',
                     tick=t, leaf=base, log2_scale=float(k), how=how)
       xr = np.asarray(x32, np.float64)
+      if sgn < 0:
+        ctx.probe('sign_flipped_requantize')
       if diag:
         off = xr - np.diag(np.diag(xr))
+        # the extracted diagonal comes back exactly (up to the rounding
+        # residue the payload may keep, see check_quantized)
+        dd = np.abs(np.diag(back) - np.diag(xr))
+        # (subnormal diagonal entries are flushed by XLA CPU: that is the known
+        # finding reported by the half-bucket oracle below, not a second one)
+        normal = np.abs(np.diag(xr)) >= 2.0 ** -126
+        okd = bool(np.all(np.isfinite(back)) and np.all(
+            (dd <= 8 * 2.0 ** -24 * np.abs(np.diag(xr)) + 1e-45) | ~normal))
+        ctx.ev('q_exact', 'ok' if okd else 'violation')
+        if not okd:
+          ctx.violate('q_exact', mk, 'diagonal_not_reproduced', tick=t,
+                      leaf=base, log2_scale=float(k), sign=sgn, how=how,
+                      worst=float(np.nanmax(dd)) if dd.size else 0.0)
       else:
         off = xr
       colmax = np.max(np.abs(off), axis=0) if off.ndim else np.abs(off)
@@ -228,7 +247,7 @@ def scaled_requantize(ctx, mk, t, base, deq, nb, diag):
                     'bucket_size_subnormal' if sub else
                     'subnormal_input_flushed_to_zero' if sub_in else
                     'scaled_tensor_off_by_more_than_half_bucket', tick=t,
-                    leaf=base, log2_scale=float(k), how=how,
+                    leaf=base, log2_scale=float(k), sign=sgn, how=how,
                     max_abs=float(np.max(np.abs(xr))),
                     worst=_worst(back, xr, tol, np))
 
